@@ -758,9 +758,9 @@ func (gs *GossipSubRouter) OnClosedIncomingStream(pid peer.ID, proto protocol.ID
 	if gs.gate != nil {
 		gs.gate.OnClosedIncomingStream(pid, proto)
 	}
-	if gs.feature(GossipSubFeatureExtensions, proto) {
-		gs.extensions.OnClosedIncomingStream(pid, proto)
-	}
+	// The extensions state records every peer on its first RPC, whatever
+	// protocol its stream speaks, so it has to be cleared for every peer.
+	gs.extensions.OnClosedIncomingStream(pid, proto)
 }
 
 func (gs *GossipSubRouter) OnNewOutboundStream(p peer.ID, proto protocol.ID, helloPacket *RPC) *RPC {
